@@ -328,6 +328,25 @@ def check_response_api(W, rec, rng):
         attrs_del = [x for x in segs[1:] if not x.startswith(("Expires=", "Max-Age="))]
         if not segs or segs[0] != "k=" or "Expires=Thu, 01 Jan 1970 00:00:00 GMT" not in segs or "Max-Age=0" not in segs or attrs_del != attrs_set:
             rec.violation("C13/delete_cookie-not-an-expired-twin", f"delete_cookie wrote {dh!r}; set_cookie with the same arguments wrote {got!r}", case, monitor="attribute-model")
+    # several cookies on one response: each call adds its own header, whatever the earlier calls were about - a cookie is
+    # (name, domain, path), so the same name for another path or domain is another cookie, and so is an identical repeat
+    for calls in ([("k", "root", "/", None), ("k", "deep", "/a", None)], [("k", "one", "/", None), ("k", "two", "/", "example.com")], [("k", "v", "/", None), ("other", "w", "/", None), ("k", "x", "/b", None)],
+                  [("k", "v", "/", None), ("k", "v", "/", None)], [("k", "kept", "/x", None), ("DEL", None, "/", None)], [("k", "kept", "/", "a.example"), ("DEL", None, "/", "b.example")]):
+        r = Response()
+        want_all = []
+        for key, val, path, domain in calls:
+            if key == "DEL":
+                r.delete_cookie("k", path=path, domain=domain)
+                want_all.append(norm(http.dump_cookie("k", "", expires=0, max_age=0, path=path, domain=domain)))
+            else:
+                r.set_cookie(key, val, path=path, domain=domain)
+                want_all.append(norm(http.dump_cookie(key, val, path=path, domain=domain, max_size=r.max_cookie_size)))
+        got_all = [norm(h_) for h_ in r.headers.getlist("Set-Cookie")]
+        rec.case()
+        rec.nontrivial(("several-cookies", repr(calls)))
+        rec.observe("responses_with_several_cookies")
+        if got_all != want_all:
+            rec.violation("C13/set_cookie-calls-interfere", f"calls {calls!r} on one response left the headers {got_all!r}; one header per call: {want_all!r}", {"part": "several-cookies", "calls": repr(calls)}, monitor="attribute-model")
     # through the jar
     for dom in (None, "example.com"):
         seen = {}
